@@ -1398,6 +1398,24 @@ func (g *gen) specScenario(idx int) {
 	}
 	if specOtrm == "" || g.r.Intn(3) == 0 {
 		s.realEnd()
+		if s.dead || g.r.Intn(4) == 0 {
+			return
+		}
+		// a further conversation after the goodbye, begun by the side that said it (in plaintext now) or
+		// by the side that heard it (still in the finished state): everything as in a first one
+		st := []*specParty{s.a, s.b}[g.r.Intn(2)]
+		g.dist[fmt.Sprintf("act:session-after-end:from-msgstate-%d", otr3.VerifSnapshot(st.c).MsgState)]++
+		otr3.VerifShiftClock(s.a.c, 61*time.Second)
+		otr3.VerifShiftClock(s.b.c, 61*time.Second)
+		marks := s.beginAKE()
+		s.emitted(st, []otr3.ValidMessage{st.c.QueryMessage()}, nil, otr3.VerifSnapshot(st.c))
+		if !s.runAKE(marks) || s.dead {
+			return
+		}
+		for i, n := 0, 4+g.r.Intn(8); i < n && !s.dead; i++ {
+			s.step()
+		}
+		s.drain()
 		return
 	}
 	s.noQueue = true
